@@ -173,7 +173,7 @@ theorem pressOk_some {b : Behavior} {c : Nat} (hc : Comp c) (hb : ∀ s, b ≠ .
   ⟨b, c, rfl, hc, hb⟩
 
 theorem tablePress_ok {tbl : List (Nat × Nat)} (ht : tbl.all (fun row => decide (row.2 < 42)) = true)
-    {c : Nat} (hc : Comp c) (k : KeyEvent) : PressOk (tablePress tbl c k) := by
+    {c : Nat} (hc : Comp c) (k : KeyEv) : PressOk (tablePress tbl c k) := by
   unfold tablePress
   split
   · exact pressOk_some hc (by intro s h; cases h)
@@ -213,7 +213,7 @@ theorem tablePress_ok {tbl : List (Nat × Nat)} (ht : tbl.all (fun row => decide
           omega
         exact pressOk_map (pres_update this _ (comp_removeTone hc)) (by intro s h; cases h)
 
-theorem hsuPress_ok {c : Nat} (hc : Comp c) (k : KeyEvent) : PressOk (hsuPress c k) := by
+theorem hsuPress_ok {c : Nat} (hc : Comp c) (k : KeyEv) : PressOk (hsuPress c k) := by
   have hrw := (List.all_eq_true.mp rewrites_syms hsuEndRewrites (by simp))
   have htk := (List.all_eq_true.mp tonekeys_syms hsuToneKeys (by simp))
   have hk := (List.all_eq_true.mp keys26_syms hsuKeys (by simp))
@@ -241,7 +241,7 @@ theorem hsuPress_ok {c : Nat} (hc : Comp c) (k : KeyEvent) : PressOk (hsuPress c
       rw [h3, Option.bind_some]
       exact pressOk_map (pres_update hbo c3 hc3) (by intro s h; cases h)
 
-theorem et26Press_ok {c : Nat} (hc : Comp c) (k : KeyEvent) : PressOk (et26Press c k) := by
+theorem et26Press_ok {c : Nat} (hc : Comp c) (k : KeyEv) : PressOk (et26Press c k) := by
   have hrw := (List.all_eq_true.mp rewrites_syms et26EndRewrites (by simp))
   have htk := (List.all_eq_true.mp tonekeys_syms et26ToneKeys (by simp))
   have hk := (List.all_eq_true.mp keys26_syms et26Keys (by simp))
@@ -305,7 +305,7 @@ theorem dc26K44_ok {c : Nat} (hc : Comp c) {res : PressResult} (h : dc26K44 c = 
           · cases h; exact pressOk_map (pres_update (by decide) c hc) (by intro s h; cases h)
           · cases h
 
-theorem dc26Press_ok {c : Nat} (hc : Comp c) (k : KeyEvent) : PressOk (dc26Press c k) := by
+theorem dc26Press_ok {c : Nat} (hc : Comp c) (k : KeyEv) : PressOk (dc26Press c k) := by
   have htk := (List.all_eq_true.mp tonekeys_syms dc26ToneKeys (by simp))
   have hk := (List.all_eq_true.mp keys26_syms dc26Keys (by simp))
   unfold dc26Press
@@ -339,7 +339,7 @@ theorem PressOk.stepOk {r : PressResult} (h : PressOk r) : StepOk r := by
   obtain ⟨b, c', rfl, hc', hb⟩ := h
   exact ⟨b, c', rfl, hc', fun s hs => absurd hs (hb s)⟩
 
-theorem fuzzyPress_ok {L : Layout} (hL : SoundLayout L) {c : Nat} (hc : Comp c) (k : KeyEvent) :
+theorem fuzzyPress_ok {L : Layout} (hL : SoundLayout L) {c : Nat} (hc : Comp c) (k : KeyEv) :
     StepOk (L.fuzzyPress c k) := by
   unfold Layout.fuzzyPress
   split
